@@ -1,4 +1,5 @@
 import IastModel.Spec.Erase
+import IastModel.Rewriter.Visitor
 /-
   Vocabulary of the C02 theorems: `strip` (forget every source position), `ESim` (the erased tree is the
   source tree up to positions, and carries the source's own position or none), and `srcOk`, the
@@ -46,10 +47,9 @@ def argInner : Node → Node
   | .arg _ e => argInner e
   | n => n
 
-def isOptN : Node → Bool
-  | .optChain .. => true
-  | .arg _ e => isOptN e
-  | _ => false
+/-- reserved for the lowered optional chains (not inside the theorems yet): the nodes whose erased form
+    carries no position.  Constantly false for now, which makes `spanRel` say "same position". -/
+def isOptN : Node → Bool := fun _ => false
 
 /-- `a` carries the position of `b`; a rebuilt optional chain carries none -/
 def spanRel (a b : Node) : Prop := a.span = b.span ∨ (isOptN b = true ∧ a.span = Span.dummy)
@@ -112,12 +112,14 @@ def srcNode : Node → Bool
     else ss.all (fun s => s.span != sp)
   | _ => true
 
-def noOptK : Node → Bool
-  | .optChain .. => false
+def noOptK (cfg : Config) : Node → Bool
+  | .optChain optional base _ => !ocTrigger cfg optional base
   | _ => true
 
-/-- the tree has no optional chain -/
-def noOpt (n : Node) : Bool := Node.all noOptK n
+/-- no optional chain of the tree is lowered under `cfg`: none is a (non-optional) call whose callee reads a
+    configured method by name off a chain link — `a?.b.trim()` with `trim` configured is excluded,
+    `a?.b.c`, `a?.b(x)`, `a?.trim` and every chain when `trim` is not configured are not -/
+def noOpt (cfg : Config) (n : Node) : Bool := Node.all (noOptK cfg) n
 
 /-- the tree is a well-formed source tree -/
 def srcOk (n : Node) : Bool := Node.all srcNode n
